@@ -51,9 +51,12 @@ pub struct Cnd(pub PStack, pub usize, pub RprSeqs);
 
 // ---------------- specification (from the property text) ----------------
 // how far a candidate lets parsing continue: its first sequence is applied at the error point and
-// LR parsing runs on, for every candidate up to the same point: TRY_PARSE_AT_MOST lexemes after the error
+// LR parsing runs on, for every candidate up to the same point: TRY_PARSE_AT_MOST lexemes after the error; a candidate
+// whose repairs themselves end at or beyond that point has got as far as the window reaches
 pub open spec fn reach(p: &Parser, in_laidx: usize, in_st: Seq<StIdx<$T>>, c: RprSeqs) -> usize {
-    up_la(p, ap_la(p, in_laidx, in_st, c.v()[0]), (in_laidx + TRY_PARSE_AT_MOST) as usize, ap_st(p, in_laidx, in_st, c.v()[0]))
+    let a = ap_la(p, in_laidx, in_st, c.v()[0]);
+    let end = (in_laidx + TRY_PARSE_AT_MOST) as usize;
+    if a < end { up_la(p, a, end, ap_st(p, in_laidx, in_st, c.v()[0])) } else { end }
 }
 pub open spec fn best(p: &Parser, in_laidx: usize, in_st: Seq<StIdx<$T>>, cs: Seq<RprSeqs>) -> usize
     decreases cs.len()
@@ -130,7 +133,8 @@ fn rank_cnds(parser: &Parser, finish_by: Instant, in_laidx: usize, in_pstack: &P
     //@rule n=1 `Instant::now\(\) >= finish_by` => `clock_expired(&finish_by, Ghost(ci0_))`
     //@rule n=1 `return vec!\[\];` => `proof { assert(any_expired(in_cnds@.len() as int)); } return Vec::new();`
     //@rule n=1 `in_pstack\.to_owned\(\)` => `slice_to_owned(in_pstack)`
-    //@rule n=4 `^\s*&mut None,\n` => ``
+    //@rule n=2 `^\s*&mut None,\n` => ``
+    //@rule n=1 `parser\.lr_upto\(None, laidx, end_laidx, &mut pstack, &mut None, &mut None\)` => `parser.lr_upto(None, laidx, end_laidx, &mut pstack)`
     //@rule n=1 `&rpr_seqs\[0\]` => `rpr_seqs.first()`
     //@rule n=1 `cnds\.push\(\(pstack, laidx, rpr_seqs\)\);` => `cnds.push(Cnd(pstack, laidx, rpr_seqs));`
     // dialect: `cnds = cnds.into_iter().filter(|(_, x, _)| COND).collect::<Vec<_>>();` as a loop keeping the elements for which COND holds (x bound to the second component)
